@@ -17,6 +17,7 @@ import hashlib
 import json
 import os
 import random
+import time
 from concurrent.futures import ThreadPoolExecutor
 
 from .. import common, tlc
@@ -286,6 +287,13 @@ def run(rep):
         "spans are observed by wrapping the base type in a one-attribute rule (V: x=R) and reading _tx_position(_end); "
         "for v*=STRING the plain grammar of the property statement is run as well and must give the same values",
     ]
+    phase, t0 = {}, time.time()
+
+    def lap(name):
+        nonlocal t0
+        phase[name] = round(time.time() - t0, 1)
+        t0 = time.time()
+
     # (M) + emission
     plan = [("bool", 0, 0, 1), ("num", 0, 0, 4)]
     plan += [("str", 5, 0, 4), ("pair", 3, 2, 8)] if quick else [("str", 6, 0, 8), ("pair", 4, 2, 16)]
@@ -294,12 +302,16 @@ def run(rep):
         rep.add_mc(f"MC_BaseTypes[{kind}]", _Agg(st), THEOREMS)
         l1, l2 = next(p[1:3] for p in plan if p[0] == kind)
         rep.bounds[f"universe_{kind}"] = dict(cases=len(cases), L1=l1, L2=l2)
+    lap("tlc_universes")
     cars = Carriers()
     rep.bounds["replayed"] = _replay_universes(rep, cars, uni)
     rep.exhaustive = True
+    lap("textx_universes")
     # (I->S)
     ns, nn = _random_pass(rep, cars, rng, *( (1500, 80, 150, 300) if quick else (6000, 300, 3000, 6000)))
     rep.bounds["random"] = dict(string_cases=ns, number_cases=nn)
+    lap("random_pass")
+    rep.extra["phase_wall_s"] = phase          # where the time went (not used in any verdict)
 
 
 def replay(path):
